@@ -37,7 +37,10 @@ RULE = ('documents of the five kinds (topology, equipment, services, spectrum, s
         'every field the loaders know: per-degree targets of the three kinds, design bands, per-frequency loss, lumped '
         'losses, Raman coefficients / efficiency, pumps, penalties, aliases (entry and mode level), nulls, several SI/Span '
         'entries, values with fewer, exactly and more digits than declared, ints where floats are declared; plus raw '
-        'decimal-formatting cases and alias-expansion cases. libyang is the well-formedness oracle: documents it rejects '
+        'decimal-formatting cases and alias-expansion cases; 14 % of the cases take the YANG form of a generated document and '
+        'serialise it in another order (entries of every keyed list reversed/shuffled, or the members of every object '
+        'shuffled with the list keys kept in front): libyang must still accept it and yang_to_legacy and the loaders must '
+        'give the same result as for the original order (positional lists such as nf_coef exactly). libyang is the well-formedness oracle: documents it rejects '
         'are counted as malformed (about 10 %, produced on purpose by a field outside the schema / too many digits / a '
         'missing mandatory range) and only the error behaviour is compared. A case is non-trivial when the document was '
         'accepted and contains at least one structure the converters rewrite or a value that needs rounding; distinct = '
@@ -794,7 +797,13 @@ def gen(rng, tier, widen=False):
         return gen_fmt(rng, widen)
     if k < 0.14:
         return gen_alias(rng)
-    if k < 0.19:
+    if k < 0.33:
+        # a YANG-form document whose keyed lists (or object members) are serialised in another order
+        kind = rng.choice(['topology', 'topology', 'equipment', 'equipment', 'equipment', 'services', 'spectrum'])
+        g = G(rng, widen)
+        return {'kind': 'permuted', 'base_kind': kind, 'doc': GENS[kind](g), 'what': rng.choice(['lists', 'lists', 'members']),
+                'pseed': rng.randrange(10 ** 9)}
+    if k < 0.38:
         name, kind = rng.choice(SHIPPED)
         return {'kind': kind, 'doc': shipped_json(name), 'style': 'shipped', 'shipped': name}
     kind = rng.choice(['topology', 'topology', 'equipment', 'equipment', 'services', 'spectrum', 'simparams'])
@@ -886,6 +895,8 @@ def run(case, drv):
         return run_fmt(case, drv)
     if kind == 'alias':
         return run_alias(case, drv)
+    if kind == 'permuted':
+        return run_permuted(case, drv)
     return run_doc(case, drv)
 
 
@@ -1334,12 +1345,12 @@ def _gnpy_errors():
 GnpyErrors = _gnpy_errors()
 
 
-def run_loaders(res, kind, d, l):
+def run_loaders(res, kind, d, l, rounded=True, order_cls=False):
     """build the objects from the legacy form (values rounded to the declared digits by the harness) and from the form
     that went through YANG; they must be equal"""
     from gnpy.tools.json_io import _equipment_from_json, network_from_json, requests_from_json, _spectrum_from_json, \
         DEFAULT_EXTRA_CONFIG
-    dr = round_doc(d)
+    dr = round_doc(d) if rounded else d
 
     def build(doc):
         doc = copy.deepcopy(doc)
@@ -1350,10 +1361,13 @@ def run_loaders(res, kind, d, l):
             from gnpy.tools.json_io import network_to_json
             net = network_from_json(doc, nets.eqpt('eqpt_config_multiband.json'))
             j = network_to_json(net)
+            if order_cls:
+                for e in j['elements']:
+                    e.get('params', {}).pop('raman_coefficient', None)   # derived from the mirrored profile, see _DERIVED
             return {'elements': {e['uid']: canon_obj(e) for e in j['elements']},
                     'connections': sorted((c['from_node'], c['to_node']) for c in j['connections']),
                     'name': net.graph['network_name'],
-                    'objects': {n.uid: canon_obj({k: v for k, v in vars(n).items() if k in ('params', 'operational', 'lumped_losses',
+                    'objects': {n.uid: canon_obj({k: v for k, v in vars(n).items() if k in ('params', 'operational',
                                                                                             'per_degree_pch_out_dbm', 'per_degree_pch_psd',
                                                                                             'per_degree_pch_psw', 'design_bands',
                                                                                             'per_degree_design_bands', 'raman_pumps',
@@ -1362,7 +1376,13 @@ def run_loaders(res, kind, d, l):
         if kind == 'services':
             reqs = requests_from_json(doc, nets.eqpt('eqpt_config.json'))
             from gnpy.tools.json_io import disjunctions_from_json
-            return {'requests': [canon_obj(r) for r in reqs], 'disjunctions': [canon_obj(x) for x in disjunctions_from_json(doc)]}
+            rq = [canon_obj(r) for r in reqs]
+            if order_cls:
+                for r in rq:
+                    if isinstance(r.get('N'), list) and isinstance(r.get('M'), list) and len(r['N']) == len(r['M']):
+                        pairs = sorted(zip(r['N'], r['M']), key=lambda p_: json.dumps(p_))
+                        r['N'], r['M'] = [p_[0] for p_ in pairs], [p_[1] for p_ in pairs]
+            return {'requests': rq, 'disjunctions': [canon_obj(x) for x in disjunctions_from_json(doc)]}
         if kind == 'spectrum':
             sp = _spectrum_from_json(doc['spectrum'])
             return {repr(k): canon_obj(v) for k, v in sp.items()}
@@ -1386,7 +1406,15 @@ def run_loaders(res, kind, d, l):
         if aerr != berr:
             res.fail(f'loaders: the legacy form gives {aerr or "objects"}, the form that went through YANG gives {berr or "objects"}')
         return
+    if order_cls:
+        # the two documents differ only in the serialisation order of keyed YANG lists: lists of objects are compared as
+        # multisets, numeric arrays (where the position is the meaning) as they are
+        a, b = _sort_object_lists(_pairs_order_free(a)), _sort_object_lists(_pairs_order_free(b))
     df = diff_obj(a, b)
+    if df and order_cls:
+        res.fail(f'serialisation order: the loaders build different objects at {df[0]}: {str(df[1])[:100]} / {str(df[2])[:100]} '
+                 'when the keyed lists of the YANG document are serialised in another order')
+        return
     if df:
         cls = 'unlisted'
         where = df[0]
@@ -1403,6 +1431,39 @@ def run_loaders(res, kind, d, l):
         res.fail(f'loaders: objects differ at {where}: legacy form {str(df[1])[:120]} / through YANG {str(df[2])[:120]}', cls=cls)
     if kind == 'equipment':
         check_aliases(res, d, b)
+
+
+# parallel lists that denote a mapping key -> value (legacy spelling of a frequency-keyed YANG list, and the arrays the
+# loaders copy them into): compared as sets of pairs.  Arrays DERIVED from them under the legacy convention of ascending
+# order (the mirrored Raman profile) are not a function of the mapping alone for an unsorted legacy list - true for a
+# hand-written legacy document as well - and are left out of the order comparison.
+_PAIRS = [('frequency', 'value'), ('frequency_offset', 'g0'), ('frequency_offset', 'cr'), ('_f_loss_ref', '_loss_coef')]
+_DERIVED = ('_raman_coefficient', '_g0', '_raman_reference_frequency')
+
+
+def _pairs_order_free(x, top=True):
+    if isinstance(x, dict):
+        out = {k: _pairs_order_free(v, False) for k, v in x.items() if k not in _DERIVED}
+        for ka, kb in _PAIRS:
+            a, b = out.get(ka), out.get(kb)
+            if isinstance(a, list) and isinstance(b, list) and len(a) == len(b) and not any(isinstance(e, (dict, list)) for e in a + b):
+                pairs = sorted(zip(a, b), key=lambda p_: (p_[0] is None, p_[0], json.dumps(p_[1])))
+                out[ka], out[kb] = [p_[0] for p_ in pairs], [p_[1] for p_ in pairs]
+        return out
+    if isinstance(x, list):
+        return [_pairs_order_free(e, False) for e in x]
+    return x
+
+
+def _sort_object_lists(x):
+    if isinstance(x, dict):
+        return {k: _sort_object_lists(v) for k, v in x.items()}
+    if isinstance(x, list):
+        y = [_sort_object_lists(e) for e in x]
+        if y and all(isinstance(e, dict) for e in y):
+            y = sorted(y, key=lambda e: json.dumps(e, sort_keys=True, default=str))
+        return y
+    return x
 
 
 def _entry_index(d, key, name):
@@ -1486,6 +1547,143 @@ def run_alias(case, drv):
     check_aliases(res, doc, canon_obj(eq))
     res.nontrivial = True
     res.stats.update({'case_alias': 1, f'alias_{what}': 1, f'alias_count_{len(entry["other_name"])}': 1})
+    return res
+
+
+# ---------------------------------------------------------------------------------------------------------------------
+# YANG-form documents serialised in another order
+# ---------------------------------------------------------------------------------------------------------------------
+# YANG lists with a key: name of the member that holds the list -> key leaf(s).  The order of the entries of such a list
+# carries no meaning in YANG (libyang accepts any order); leaf-lists and key-less lists (Span, SI, penalties, impairment
+# rows) are left alone.
+KEYED = {'elements': ('uid',), 'connections': ('from_node', 'to_node'), 'Edfa': ('type_variety',), 'Fiber': ('type_variety',),
+         'RamanFiber': ('type_variety',), 'Roadm': ('type_variety',), 'Transceiver': ('type_variety',), 'mode': ('format',),
+         'nf_coef': ('coef_order',), 'raman_efficiency': ('frequency_offset',), 'g0_per_frequency': ('frequency_offset',),
+         'loss_coef_per_frequency': ('frequency',), 'lumped_losses': ('position',), 'raman_pumps': ('frequency',),
+         'design_bands': ('f_min',), 'per_degree_design_bands_targets': ('degree_uid',),
+         'per_degree_power_targets': ('degree_uid',), 'per_degree_impairments': ('from_degree', 'to_degree'),
+         'amplifiers': ('type_variety',), 'roadm-path-impairments': ('roadm-path-impairments-id',),
+         'path-request': ('request-id',), 'synchronization': ('synchronization-id',),
+         'route-object-include-exclude': ('index',), 'effective-freq-slot': ('N',), 'gnpy-spectrum:spectrum': ('f_min',)}
+
+
+def _is_keyed(k, v):
+    return k in KEYED and isinstance(v, list) and len(v) > 0 and all(isinstance(e, dict) for e in v)
+
+
+def permute_lists(x, rng, count):
+    if isinstance(x, dict):
+        out = {}
+        for k, v in x.items():
+            v = permute_lists(v, rng, count)
+            if _is_keyed(k, v) and len(v) > 1:
+                w = list(v)
+                c = rng.random()
+                if c < 0.35:
+                    w.reverse()
+                else:
+                    rng.shuffle(w)
+                if w != v:
+                    count[k] = count.get(k, 0) + 1
+                v = w
+            out[k] = v
+        return out
+    if isinstance(x, list):
+        return [permute_lists(e, rng, count) for e in x]
+    return x
+
+
+def permute_members(x, rng, keys=()):
+    """shuffle the members of every object; the key leaves of a keyed-list entry stay in front (libyang wants them first)"""
+    if isinstance(x, dict):
+        names = [k for k in x if k not in keys]
+        rng.shuffle(names)
+        out = {}
+        for k in [k for k in keys if k in x] + names:
+            v = x[k]
+            if _is_keyed(k, v):
+                out[k] = [permute_members(e, rng, KEYED[k]) for e in v]
+            else:
+                out[k] = permute_members(v, rng)
+        return out
+    if isinstance(x, list):
+        return [permute_members(e, rng) for e in x]
+    return x
+
+
+# legacy lists that come from a keyed YANG list and whose own order carries no meaning: compared after sorting by the key;
+# pairs of parallel lists (frequency/value ...) are compared as sets of pairs.  `nf_coef` is positional in the legacy
+# form (index = coef_order): it is compared as it is.
+LEGACY_KEYED = {k: v for k, v in KEYED.items() if k not in ('nf_coef', 'raman_efficiency', 'g0_per_frequency',
+                                                             'loss_coef_per_frequency', 'per_degree_design_bands_targets',
+                                                             'per_degree_power_targets', 'gnpy-spectrum:spectrum')}
+LEGACY_KEYED['spectrum'] = ('f_min',)
+PARALLEL = {'loss_coef': ('frequency', 'value'), 'raman_coefficient': ('frequency_offset', 'g0'),
+            'raman_efficiency': ('frequency_offset', 'cr')}
+
+
+def order_free(x):
+    if isinstance(x, dict):
+        out = {}
+        for k, v in x.items():
+            v = order_free(v)
+            if k in LEGACY_KEYED and isinstance(v, list) and all(isinstance(e, dict) for e in v):
+                v = sorted(v, key=lambda e: json.dumps([e.get(kk) for kk in LEGACY_KEYED[k]], default=str))
+            if k == 'per_degree_design_bands' and isinstance(v, dict):
+                v = {dg: (sorted(bl, key=lambda e: json.dumps(e.get('f_min'))) if isinstance(bl, list) else bl)
+                     for dg, bl in v.items()}
+            if k in PARALLEL and isinstance(v, dict) and all(isinstance(v.get(kk), list) for kk in PARALLEL[k]):
+                a, b = PARALLEL[k]
+                pairs = sorted(zip(v[a], v[b]), key=lambda p: (p[0] is None, p[0]))
+                v = dict(v)
+                v[a], v[b] = [p[0] for p in pairs], [p[1] for p in pairs]
+            out[k] = v
+        return out
+    if isinstance(x, list):
+        return [order_free(e) for e in x]
+    return x
+
+
+def run_permuted(case, drv):
+    import random
+    from gnpy.tools.convert_legacy_yang import legacy_to_yang
+    res = Result()
+    kind, d, what = case['base_kind'], case['doc'], case['what']
+    res.stats['case_permuted'] += 1
+    res.stats[f'permuted_{what}_{kind}'] += 1
+    y, yerr = _impl(legacy_to_yang, d)
+    if yerr is not None or validate(y) is not None:
+        res.stats['permuted_base_not_accepted'] += 1
+        return res
+    rng = random.Random(case['pseed'])
+    count = {}
+    yp = permute_lists(y, rng, count) if what == 'lists' else permute_members(y, rng)
+    for k, n in count.items():
+        res.stats[f'permuted_list_{k}'] += n
+    if validate(yp) is not None:
+        # libyang is the oracle: a serialisation it refuses is not an accepted document
+        res.stats['permuted_refused_by_libyang'] += 1
+        return res
+    l, lerr = safe_y2l(y)
+    lp, lperr = safe_y2l(yp)
+    _cmp_conv(res, 'yang_to_legacy(permuted)', lp, lperr, *_model(drv, 'c18.to_legacy', yp))
+    if lerr is not None:
+        return res
+    if lperr is not None:
+        res.fail(f'serialisation order: the same YANG data with {what} in another order is refused by yang_to_legacy ({lperr})')
+        return res
+    res.nontrivial = bool(count) or what == 'members'
+    # --- monitor: same legacy document (positional lists exactly, key-ordered lists up to their own order)
+    if what == 'members':
+        places = diff_paths(l, lp)
+    else:
+        places = diff_paths(order_free(l), order_free(lp))
+    for pth in places[:3]:
+        res.fail(f'serialisation order: yang_to_legacy gives another legacy document at {pth} when the {what} of the YANG '
+                 'document are serialised in another order')
+    # --- monitor: the loaders build the same objects
+    if kind in ('equipment', 'topology', 'services', 'spectrum'):
+        run_loaders(res, kind, l, lp, rounded=False, order_cls=True)
     return res
 
 
